@@ -20,6 +20,9 @@ def main(argv):
     tripwire.install()
     util.assert_repo_module()
 
+    from vf.obs import monitor
+    cov = monitor.shared_coverage()
+
     from vf.ctx import Ctx, Stop
     mod = importlib.import_module("vf.props." + prop.lower())
     ctx = Ctx(prop, tier, seed, shard, nshards)
@@ -42,6 +45,7 @@ def main(argv):
     res["status"] = status
     res["error"] = err
     res["tripwire"] = tripwire.events()
+    res["lines"] = sorted([b, q, l] for (b, q, l) in cov.hit)
     tmp = out + ".tmp"
     with open(tmp, "w") as f:
         json.dump(res, f)
